@@ -9,9 +9,9 @@ contract, never against its body:
                     Coefficients class, `_dpade`, the theta helpers, and the lemma `_get_dphidzeta(., ., 0, .) == 0`;
   top level         `vxc_s == d (n fxc) / d n_s` for lda_xc_ksdt_spin over its own locals, helper results being opaque values that carry the
                     derivative rules of their contracts (the one-line theta helpers are executed in line);
-  wrappers          lda_xc_ksdt (zeta = 0, first channel), lda_xc_gdsmfb[_spin], lda_xc_corr_ksdt hand their arguments on and only replace
-                    coefficient CLASSES that add numbers and override nothing: decided on the AST. The coefficient values are symbols in all
-                    proofs, so one proof covers every parameter set.
+  wrappers          lda_xc_ksdt (zeta = 0, first channel), lda_xc_gdsmfb[_spin], lda_xc_corr_ksdt are EXECUTED like every other function (dictionary item
+                    assignment and **kwargs merging in the executor); the data classes they name must add numbers and override nothing (checked on the
+                    AST) and become coefficient objects with symbolic numbers, so one proof covers every parameter set.
 
 Region: n > 0, |zeta| < 1, T > 0 (so theta > 0: the branches `xp.where(theta > 0, ...)` are decided by that assumption; the T = 0 branches are the
 engine-A obligations `*.T0`). Real arithmetic; a root of a product of positive factors is the product of the roots.
@@ -55,6 +55,7 @@ class Model:
     def __init__(self, src=None):
         self.src = src if src is not None else source_of(MOD)
         tree = ast.parse(self.src)
+        self.tree = tree
         self.funcs = {n.name: n for n in tree.body if isinstance(n, ast.FunctionDef)}
         self.classes = {n.name for n in tree.body if isinstance(n, ast.ClassDef)}
         cls = [n for n in tree.body if isinstance(n, ast.ClassDef) and n.name == "Coefficients"]
@@ -130,14 +131,29 @@ class CoeffObj:
 
 
 class ParamObj:
-    def __init__(self, ctx):
-        self.ctx = ctx
+    def __init__(self, ctx, tag="phi"):
+        self.ctx, self.tag = ctx, tag
 
     def key(self):
-        return ("phi_params",)
+        return ("phi_params", self.tag)
 
     def ssa_getattr(self, attr, ex):
-        return self.ctx.tr.inp(f"phi_{attr}")
+        return self.ctx.tr.inp(f"{self.tag}_{attr}")
+
+
+def class_env(ctx, tree, prefix):
+    """The data classes of a module as callables of the symbolic execution: plain subclasses of Coefficients make coefficient objects (numbers = symbols named after
+    the class), PhiParams and its plain subclasses make parameter objects. Classes that add or override anything but numbers are left out (a call then leaves the subset)."""
+    env = {}
+    for n in tree.body:
+        if not isinstance(n, ast.ClassDef):
+            continue
+        bases = [ast.unparse(b) for b in n.bases]
+        if bases == ["Coefficients"] and _plain_data_class(tree, n.name, "Coefficients"):
+            env[n.name] = ClassObj(lambda th, name=n.name: CoeffObj(ctx, f"{prefix}{name}", th))
+        elif n.name == "PhiParams" or (bases == ["PhiParams"] and _plain_data_class(tree, n.name, "PhiParams")):
+            env[n.name] = ClassObj(lambda name=n.name: ParamObj(ctx, f"{prefix}{name}"))
+    return env
 
 
 class ClassObj:
@@ -160,6 +176,7 @@ class Ctx:
         for name in model.funcs:
             handlers[name] = self._handler(name)
         self.ex = ssa.Exec(self.tr, handlers)
+        self.module_env = class_env(self, model.tree, "")  # default arguments of the module's functions name its own data classes
         self.ex.global_attr = self.global_attr
 
     def global_attr(self, dotted):
@@ -184,7 +201,7 @@ class Ctx:
                 if name in self.inline:
                     for k, v in list(env.items()):
                         if isinstance(v, tuple) and v and v[0] == "default":
-                            env[k] = ex.ev(v[1], {})
+                            env[k] = ex.ev(v[1], dict(self.module_env))
                 else:
                     raise ssa.OutsideSubset(f"{name} called by contract with a defaulted argument")
             if name in self.inline:
@@ -341,11 +358,44 @@ def residual_of(model, what):
             seeds = {n: 1}
         got = vxc[0 if s == "n" else s]
         return ctx, [("vxc", got - (fxc + n * _deriv(ctx, fxc, seeds, f"S{s}")))]
+    if kind == "wrapper":
+        # the public wrapper itself is executed (its module's data classes are coefficient / parameter objects with symbolic numbers; lda_xc_ksdt[_spin] in line)
+        _, module, fname, s = what
+        ctx = make_ctx(model, inline=INLINE_TOP + ("lda_xc_ksdt", "lda_xc_ksdt_spin"))
+        tr = ctx.tr
+        wtree = model.tree if module == MOD else ast.parse(source_of(module))
+        fn = next((x for x in wtree.body if isinstance(x, ast.FunctionDef) and x.name == fname), None)
+        if fn is None:
+            raise ssa.OutsideSubset(f"{fname} not found in {module}")
+        n, T = tr.inp("n", positive=True), tr.inp("T", positive=True)
+        spin = s in (0, 1)
+        zeta = tr.inp("zeta") if spin else None
+        env = bind(fn, [n, zeta] if spin else [n], dict(T=T))
+        for k, v in list(env.items()):
+            if isinstance(v, tuple) and v and v[0] == "default":
+                env[k] = ctx.ex.ev(v[1], dict(ctx.module_env))
+        classes = dict(ctx.module_env)
+        if module != MOD:
+            classes.update(class_env(ctx, wtree, fname + "."))
+        for k, v in classes.items():
+            env.setdefault(k, v)
+        if module != MOD:
+            # names the wrapper module imports from the base module: the functions are the handlers of this context
+            pass
+        out = ctx.ex.run(fn, env)
+        if not (isinstance(out, list) and len(out) == 3 and isinstance(out[1], list) and len(out[1]) == (2 if spin else 1)):
+            raise ssa.OutsideSubset(f"{fname} does not return (exc, [{'vxc_up, vxc_dw' if spin else 'vxc'}], None)")
+        fxc, vxc = out[0], out[1]
+        seeds = {n: 1}
+        if spin:
+            seeds[zeta] = (1 - zeta) / n if s == 0 else -(1 + zeta) / n
+        got = vxc[s if spin else 0]
+        return ctx, [("vxc", got - (fxc + n * _deriv(ctx, fxc, seeds, f"W{s}")))]
     raise ValueError(what)
 
 
 # ------------------------------------------------------------------------------------------------
-# wrappers (AST)
+# data classes of the wrapper modules (AST)
 # ------------------------------------------------------------------------------------------------
 
 
@@ -365,68 +415,6 @@ def _plain_data_class(tree, name, base):
                 return False
             return True
     return False
-
-
-def wrapper_ok(module, fname, target, spin, classes):
-    """`fname(n[, zeta], T=0, **kwargs)` returns `target(n[, zeta], T=T, <coefficient classes>, **kwargs)` and the classes are plain data classes."""
-    src = source_of(module)
-    tree = ast.parse(src)
-    fn = next((n for n in tree.body if isinstance(n, ast.FunctionDef) and n.name == fname), None)
-    if fn is None:
-        return f"{fname} not found"
-    params = [a.arg for a in fn.args.args]
-    if params != (["n", "zeta", "T"] if spin else ["n", "T"]) or fn.args.kwarg is None or fn.args.vararg is not None or fn.args.kwonlyargs:
-        return f"signature of {fname} is not (n, {'zeta, ' if spin else ''}T=0, **kwargs)"
-    if len(fn.args.defaults) != 1 or not (isinstance(fn.args.defaults[0], ast.Constant) and fn.args.defaults[0].value == 0):
-        return "T does not default to 0"
-    body = [s for s in fn.body if not (isinstance(s, ast.Expr) and isinstance(s.value, ast.Constant))]
-    if len(body) != 1 or not isinstance(body[0], ast.Return) or not isinstance(body[0].value, ast.Call):
-        return "body is not a single call"
-    c = body[0].value
-    if ast.unparse(c.func) != target:
-        return f"does not call {target}"
-    if [ast.unparse(a) for a in c.args] != params[:-1]:
-        return "positional arguments are not handed on in order"
-    named = {k.arg: ast.unparse(k.value) for k in c.keywords if k.arg}
-    star = [ast.unparse(k.value) for k in c.keywords if k.arg is None]
-    if star != [fn.args.kwarg.arg] or named.get("T") != "T":
-        return "T / **kwargs are not handed on"
-    extra = {k: v for k, v in named.items() if k != "T"}
-    if set(extra) - set(classes):
-        return f"unexpected keyword {sorted(set(extra) - set(classes))}"
-    for k, v in extra.items():
-        if not _plain_data_class(tree, v, classes[k]):
-            return f"{v} is not a plain data subclass of {classes[k]}"
-    return None
-
-
-def spinpaired_ok():
-    """lda_xc_ksdt(n, T, classes..., **kwargs): sets kwargs['zeta'] to zeros, calls lda_xc_ksdt_spin(n, T=T, classes..., **kwargs), returns (exc, stack([vxc[0]]), None)."""
-    fn = ssa.function_ast(source_of(MOD), "lda_xc_ksdt")
-    body = [s for s in fn.body if not (isinstance(s, ast.Expr) and isinstance(s.value, ast.Constant))]
-    if len(body) != 3:
-        return "body is not (zeta assignment, call, return)"
-    a, b, r = body
-    if not (isinstance(a, ast.Assign) and ast.unparse(a.targets[0]) in ("kwargs['zeta']", 'kwargs["zeta"]') and ast.unparse(a.value) in ("xp.zeros_like(n)", "np.zeros_like(n)")):
-        return "zeta is not set to zeros_like(n)"
-    if not (isinstance(b, ast.Assign) and isinstance(b.value, ast.Call) and ast.unparse(b.value.func) == "lda_xc_ksdt_spin" and isinstance(b.targets[0], ast.Tuple) and len(b.targets[0].elts) == 3):
-        return "second statement is not `exc, vxc, _ = lda_xc_ksdt_spin(...)`"
-    t = [ast.unparse(x) for x in b.targets[0].elts]
-    c = b.value
-    named = {k.arg: ast.unparse(k.value) for k in c.keywords if k.arg}
-    star = [ast.unparse(k.value) for k in c.keywords if k.arg is None]
-    if [ast.unparse(x) for x in c.args] != ["n"] or star != ["kwargs"] or named != dict(T="T", zeta0_coeffs="zeta0_coeffs", zeta1_coeffs="zeta1_coeffs", phi_params="phi_params"):
-        return "arguments are not handed on one to one"
-    if not (isinstance(r, ast.Return) and ast.unparse(r.value) in (f"({t[0]}, xp.stack([{t[1]}[0]]), None)", f"({t[0]}, np.stack([{t[1]}[0]]), None)")):
-        return "does not return (exc, stack([vxc[0]]), None)"
-    return None
-
-
-WRAPPERS = {
-    "lda_xc_gdsmfb": ("eminus.xc.lda_xc_gdsmfb", "lda_xc_ksdt", False, dict(zeta0_coeffs="Coefficients", zeta1_coeffs="Coefficients", phi_params="PhiParams")),
-    "lda_xc_gdsmfb_spin": ("eminus.xc.lda_xc_gdsmfb", "lda_xc_ksdt_spin", True, dict(zeta0_coeffs="Coefficients", zeta1_coeffs="Coefficients", phi_params="PhiParams")),
-    "lda_xc_corr_ksdt": ("eminus.xc.lda_xc_corr_ksdt", "lda_xc_ksdt", False, dict(zeta0_coeffs="Coefficients")),
-}
 
 
 # ------------------------------------------------------------------------------------------------
@@ -496,6 +484,20 @@ def native_check(what, seed):
             else:
                 ana = float(np.asarray(m.lda_xc_ksdt_spin(np.array([n]), np.array([z]), T=T)[1]).reshape(2, -1)[s, 0])
                 num = dq((lambda x: E(x, nd)) if s == 0 else (lambda x: E(nu, x)), nu if s == 0 else nd, 1e-4 * (nu if s == 0 else nd))
+        elif kind == "wrapper":
+            _, module, fname, s = what
+            f = getattr(importlib.import_module(module), fname)
+            if s == "n":
+                ana = float(np.asarray(f(np.array([n]), T=T)[1]).reshape(-1)[0])
+                num = dq(lambda x: x * float(np.asarray(f(np.array([x]), T=T)[0]).reshape(-1)[0]), n, 1e-4 * n)
+            else:
+                def Ew(nu_, nd_):
+                    nn = nu_ + nd_
+                    return nn * float(np.asarray(f(np.array([nn]), np.array([(nu_ - nd_) / nn]), T=T)[0]).reshape(-1)[0])
+
+                nu, nd = n * (1 + zeta) / 2, n * (1 - zeta) / 2
+                ana = float(np.asarray(f(np.array([n]), np.array([zeta]), T=T)[1]).reshape(2, -1)[s, 0])
+                num = dq((lambda x: Ew(x, nd)) if s == 0 else (lambda x: Ew(nu, x)), nu if s == 0 else nd, 1e-4 * (nu if s == 0 else nd))
         else:
             return None
         dev = abs(ana - num) / max(abs(ana), abs(num), 1e-3)
@@ -510,17 +512,13 @@ def native_check(what, seed):
 
 
 class Contract:
-    def __init__(self, what, wrappers=(), source_edit=None, thorough_only=False):
-        self.what, self.wrappers, self.source_edit, self.thorough_only = what, wrappers, source_edit, thorough_only
+    def __init__(self, what, source_edit=None, thorough_only=False):
+        self.what, self.source_edit, self.thorough_only = what, source_edit, thorough_only
 
     def __call__(self, ob, tier, seed):
         t0 = time.time()
         if self.thorough_only and tier != "thorough":
             return Result(UNDECIDED, backend="engine-S", detail="runs in the thorough tier only")
-        for w in self.wrappers:
-            why = spinpaired_ok() if w == "lda_xc_ksdt" else wrapper_ok(WRAPPERS[w][0], w, *WRAPPERS[w][1:])
-            if why is not None:
-                return Result(UNDECIDED, backend="engine-S", detail=f"wrapper {w} is outside the forwarding pattern: {why}")
         src = None
         if self.source_edit is not None:
             src = source_of(MOD)
@@ -552,7 +550,7 @@ class Contract:
                 return Result(DISCHARGED, backend="engine-S", detail="canary: the corrupted function was accepted")
             return Result(DISCHARGED, backend="engine-S (chain rule over the function's own locals; callees by contract)",
                           stats=dict(unfoldings={k: v["unfoldings"] for k, v in stats.items()}, seconds=round(time.time() - t0, 1)),
-                          side_conditions=["n > 0, |zeta| < 1, T > 0 (theta > 0)", "coefficients are symbols: holds for every parameter set"] + [f"wrapper {w} forwards (AST)" for w in self.wrappers])
+                          side_conditions=["n > 0, |zeta| < 1, T > 0 (theta > 0)", "coefficients are symbols: holds for every parameter set"])
         except ssa.OutsideSubset as e:
             return Result(UNDECIDED, backend="engine-S", detail=f"outside subset: {e}")
 
@@ -587,12 +585,12 @@ for _s, _lab in ((0, "up"), (1, "dw")):
     register(Obligation(name=f"C02.lda_xc_ksdt_spin.vxc_{_lab}.Tpos.modular", prop=PROP, engine="S", functions=[_F + "lda_xc_ksdt_spin"], run=Contract(("top", _s)), budget={"quick": 240, "thorough": 900}, assumes=_A,
                         doc=f"vxc_{_lab} == d(n fxc)/dn_{_lab} for lda_xc_ksdt_spin at T > 0 over its own locals (helpers by contract, symbolic coefficients)"))
     register(Obligation(name=f"C02.lda_xc_gdsmfb_spin.vxc_{_lab}.Tpos.modular", prop=PROP, engine="S", functions=["eminus.xc.lda_xc_gdsmfb:lda_xc_gdsmfb_spin", _F + "lda_xc_ksdt_spin"],
-                        run=Contract(("top", _s), wrappers=("lda_xc_gdsmfb_spin",)), budget={"quick": 240, "thorough": 900}, assumes=_A,
-                        doc=f"the same for lda_xc_gdsmfb_spin: a forwarding wrapper that replaces the coefficient classes by plain data classes"))
-for _w, _ws in (("lda_xc_ksdt", ("lda_xc_ksdt",)), ("lda_xc_gdsmfb", ("lda_xc_gdsmfb", "lda_xc_ksdt")), ("lda_xc_corr_ksdt", ("lda_xc_corr_ksdt", "lda_xc_ksdt"))):
-    register(Obligation(name=f"C02.{_w}.vxc_n.Tpos.modular", prop=PROP, engine="S", functions=[f"eminus.xc.{_w}:{_w}", _F + "lda_xc_ksdt", _F + "lda_xc_ksdt_spin"], run=Contract(("top", "n"), wrappers=_ws),
+                        run=Contract(("wrapper", "eminus.xc.lda_xc_gdsmfb", "lda_xc_gdsmfb_spin", _s)), budget={"quick": 240, "thorough": 900}, assumes=_A,
+                        doc="the same for lda_xc_gdsmfb_spin: the wrapper itself is executed (its data classes are coefficient objects with symbolic numbers, lda_xc_ksdt_spin in line)"))
+for _w, _m in (("lda_xc_ksdt", MOD), ("lda_xc_gdsmfb", "eminus.xc.lda_xc_gdsmfb"), ("lda_xc_corr_ksdt", "eminus.xc.lda_xc_corr_ksdt")):
+    register(Obligation(name=f"C02.{_w}.vxc_n.Tpos.modular", prop=PROP, engine="S", functions=[f"{_m}:{_w}", _F + "lda_xc_ksdt", _F + "lda_xc_ksdt_spin"], run=Contract(("wrapper", _m, _w, "n")),
                         budget={"quick": 240, "thorough": 900}, assumes=_A,
-                        doc=f"vxc == d(n exc)/dn for {_w} at T > 0: lda_xc_ksdt_spin at zeta = 0 (first channel), wrappers forward (AST)"))
+                        doc=f"vxc == d(n exc)/dn for {_w} at T > 0: the wrapper itself is executed (zeta = 0 set by lda_xc_ksdt, first channel handed on, data classes with symbolic numbers)"))
 
 register(Obligation(name="C02.canary.engineS_thermal_wrong_chain_rule", prop=PROP, engine="S", functions=[_F + "lda_xc_ksdt_spin"], canary=True,
                     run=Contract(("top", 0), source_edit=("dzetadn_up = -zeta / n + 1 / n", "dzetadn_up = -zeta / n - 1 / n")),
